@@ -29,6 +29,7 @@ func init() {
 		"bytes.Equal":                           bytesEqual,
 		"errors.New":                            newError,
 		"fmt.Errorf":                            newError,
+		"sort.Ints":                             sortInts,
 		"math/big.NewInt":                       bigNewInt,
 		"(*math/big.Int).Bit":                   bigBit,
 		"(*math/big.Int).SetBit":                bigSetBit,
@@ -95,6 +96,11 @@ func lockModel(held string) stdModel {
 	return func(x *Exec, fr *frame, ins ssa.CallInstruction, c *ssa.CallCommon, args []Val, st *State, r string) (Val, string) {
 		used("sync.Mutex / RWMutex: Lock..Unlock delimit a critical section (ghost lock set); mutual exclusion itself is the library's guarantee")
 		st.Ghost[lockKey(x.vc, args[0])] = held
+		if held == "1" {
+			st.Ghost["heldlocks"] = x.vc.S.def("g_held", ic(add(ghost(st, "heldlocks"), "1"))).T
+		} else {
+			st.Ghost["heldlocks"] = x.vc.S.def("g_held", ic(sub(ghost(st, "heldlocks"), "1"))).T
+		}
 		return Val{}, r
 	}
 }
@@ -132,6 +138,24 @@ func bigSetBit(x *Exec, fr *frame, ins ssa.CallInstruction, c *ssa.CallCommon, a
 func bigInt64(x *Exec, fr *frame, ins ssa.CallInstruction, c *ssa.CallCommon, args []Val, st *State, r string) (Val, string) {
 	v := x.vc.S.defVal("bigv", Val{ic(x.vc.read(st.Mem, args[0][0].T, args[0][1].T))})
 	return v, r
+}
+
+// sort.Ints(a): a becomes ascending; it is a permutation of its old content (stated here through
+// what the proofs use: every new element is an old element and every old element is <= the new last)
+func sortInts(x *Exec, fr *frame, ins ssa.CallInstruction, c *ssa.CallCommon, args []Val, st *State, r string) (Val, string) {
+	used("sort.Ints(a): afterwards a is ascending and a permutation of its previous content")
+	a := args[0]
+	old := st.Mem
+	keepNot := and(eq("r", a[0].T), sx("<=", a[1].T, "o"), sx("<", "o", add(a[1].T, a[2].T)))
+	x.vc.havocMem(st, not(keepNot))
+	nm := st.Mem
+	ref, off, n := a[0].T, a[1].T, a[2].T
+	S := x.vc.S
+	S.fact(r, fmt.Sprintf("(forall ((i Int) (j Int)) (=> (and (<= 0 i) (<= i j) (< j %s)) (<= (%s %s (+ %s i)) (%s %s (+ %s j)))))", n, nm, ref, off, nm, ref, off))
+	S.fact(r, fmt.Sprintf("(forall ((j Int)) (=> (and (<= 0 j) (< j %s)) (<= (%s %s (+ %s j)) (%s %s (+ %s (- %s 1))))))", n, old, ref, off, nm, ref, off, n))
+	w := S.freshConst("sort_wit", false)
+	S.fact(r, implies(sx(">", n, "0"), and(sx("<=", "0", w), sx("<", w, n), eq(x.vc.read(nm, ref, add(off, sub(n, "1"))), x.vc.read(old, ref, add(off, w))))))
+	return Val{}, r
 }
 
 func noopModel(x *Exec, fr *frame, ins ssa.CallInstruction, c *ssa.CallCommon, args []Val, st *State, r string) (Val, string) {
